@@ -40,6 +40,7 @@ struct TaskSpec {
   int parent = -1;
   bool use_execute = false;
   bool wakeup_after = false;
+  bool wake_inside = false;  // the task calls wakeup_one_worker() after spawning (as test_executor.cpp local_task_steal_after_wakeup)
   int submitter = 0;
   std::vector<int> children;
 };
@@ -99,6 +100,10 @@ int body(int id) {
     spawn(ch);
     dsched::point();
     if (!W->exec->is_running_in()) dsched::fail("is-running-in", "is_running_in() became false inside task %d", id);
+  }
+  if (t.wake_inside) {
+    W->exec->wakeup_one_worker();
+    for (int k = 0; k < 3; k++) dsched::yield_point();  // linger: give a woken worker the chance to steal
   }
   dsched::point();
   if (W->stopped) dsched::fail("run-after-stop", "task %d was still running after stop() had returned", id);
@@ -170,6 +175,7 @@ void run_case(Chooser& c) {
     int root = add(-1);
     W->spec[(size_t)root].submitter = (int)c.below((uint32_t)nsub + 1);
     W->spec[(size_t)root].wakeup_after = c.chance(1, 3);
+    W->spec[(size_t)root].wake_inside = c.chance(1, 2);
     int nch = c.range(r == 0 ? 1 : 0, 3);
     for (int k = 0; k < nch && spawned < 4; k++) {
       int ch = add(root);
@@ -181,10 +187,10 @@ void run_case(Chooser& c) {
     }
   }
   W->state.resize(W->spec.size());
-  int local_cap = spawned + c.range(0, 1);  // >= spawned >= 1
+  int local_cap = spawned;  // >= 1; every spawn fits
   int R = extra_wakeups;
   for (const TaskSpec& t : W->spec)
-    if (t.parent < 0) R += 1 + (t.wakeup_after ? 1 : 0);
+    if (t.parent < 0) R += 1 + (t.wakeup_after ? 1 : 0) + (t.wake_inside ? 1 : 0);
   int global_cap = 1;  // never full: tasks + wakeups + STOP markers fit (no deadlock by design)
   auto real_cap = [](int gc) { size_t n = 1; while (n < (size_t)gc * 2) n <<= 1; return n; };
   while (real_cap(global_cap) < (size_t)(R + spawned + workers)) global_cap++;
@@ -201,7 +207,7 @@ void run_case(Chooser& c) {
       for (int g : W->spec[(size_t)ch].children) dsched::describe("[%s%d]", W->spec[(size_t)g].use_execute ? "x" : "s", g);
       dsched::describe(" ");
     }
-    dsched::describe(")%s", t.wakeup_after ? "+w" : "");
+    dsched::describe(")%s%s", t.wake_inside ? "W" : "", t.wakeup_after ? "+w" : "");
   }
 
   // ---- ballast: the ids 0..D-1 are taken, as if D other threads owning local queues were alive --------------
